@@ -9,6 +9,7 @@ import (
 	"strings"
 
 	"golang.org/x/tools/go/packages"
+	"golang.org/x/tools/go/ssa"
 )
 
 // E5 — protocol wiring between the built-in server's notification senders and
@@ -234,7 +235,7 @@ func ruleW(p *Program, r *Reporter) {
 	spk := p.Pkgs["server"]
 	sinfo := spk.TypesInfo
 	handlers := clientHandlers(p)
-	sends := serverSends(p)
+	sends := serverSendsSSA(p)
 	if len(handlers) < 3 || len(sends) < 3 {
 		r.Anchor(id, fmt.Sprintf("expected >=3 client handlers and >=3 server notification senders, found %d and %d", len(handlers), len(sends)))
 		return
@@ -273,66 +274,12 @@ func ruleW(p *Program, r *Reporter) {
 		r.Anchor(id, "server.monitor / server.monitorKind")
 		return
 	}
-	ctorKind := map[*types.Func]*types.Const{}
-	for _, f := range spk.Syntax {
-		for _, d := range f.Decls {
-			fd, ok := d.(*ast.FuncDecl)
-			if !ok || fd.Body == nil || fd.Recv != nil {
-				continue
-			}
-			fobj, _ := sinfo.Defs[fd.Name].(*types.Func)
-			sig := fobj.Type().(*types.Signature)
-			if sig.Results().Len() != 1 || !isNamed(sig.Results().At(0).Type(), repoMod+"/server", "monitor") {
-				continue
-			}
-			ast.Inspect(fd.Body, func(n ast.Node) bool {
-				kv, ok := n.(*ast.KeyValueExpr)
-				if !ok {
-					return true
-				}
-				if kid, ok := kv.Key.(*ast.Ident); ok && kid.Name == "kind" {
-					if vid, ok := ast.Unparen(kv.Value).(*ast.Ident); ok {
-						if c, ok := sinfo.Uses[vid].(*types.Const); ok {
-							ctorKind[fobj] = c
-						}
-					}
-				}
-				return true
-			})
-		}
-	}
-	// processMonitors: kind constant -> Send method
-	kindSend := map[*types.Const]*types.Func{}
+	kindSend := kindToSender(p, sends)
 	pmDecl, _, err := p.funcDecl("server", "OvsdbServer", "processMonitors")
 	if err != nil {
 		r.Anchor(id, "server.(*OvsdbServer).processMonitors")
 		return
 	}
-	ast.Inspect(pmDecl.Body, func(n ast.Node) bool {
-		cc, ok := n.(*ast.CaseClause)
-		if !ok {
-			return true
-		}
-		var callee *types.Func
-		for _, st := range cc.Body {
-			ast.Inspect(st, func(m ast.Node) bool {
-				if c, ok := m.(*ast.CallExpr); ok {
-					if fn := calleeOf(sinfo, c); fn != nil && sends[fn] != nil {
-						callee = fn
-					}
-				}
-				return true
-			})
-		}
-		for _, e := range cc.List {
-			if eid, ok := ast.Unparen(e).(*ast.Ident); ok {
-				if c, ok := sinfo.Uses[eid].(*types.Const); ok && callee != nil {
-					kindSend[c] = callee
-				}
-			}
-		}
-		return true
-	})
 	// W2: distinct kinds, every kind constant has a case
 	var kinds []*types.Const
 	sc := spk.Types.Scope()
@@ -358,30 +305,19 @@ func ruleW(p *Program, r *Reporter) {
 			continue
 		}
 		hd, _ := p.Decl(h)
-		// constructors called by the handler
-		var ctor *types.Func
-		ast.Inspect(hd.Body, func(n ast.Node) bool {
-			if c, ok := n.(*ast.CallExpr); ok {
-				if fn := calleeOf(sinfo, c); fn != nil {
-					if _, isCtor := ctorKind[fn]; isCtor {
-						ctor = fn
-					}
-				}
-			}
-			return true
-		})
 		hname := typesFuncName(h)
-		if ctor == nil {
-			r.Ob(id, hname, "rpc "+spec.rpc+" constructor", hd.Pos(), false, true, "handler does not create a monitor through a constructor that sets its kind")
+		kinds := handlerKinds(p, p.SSAFunc(h))
+		if len(kinds) != 1 {
+			r.Ob(id, hname, "rpc "+spec.rpc+" constructor", hd.Pos(), false, true, fmt.Sprintf("the handler creates monitors of %d kinds (expected exactly one kind constant stored into monitor.kind)", len(kinds)))
 			continue
 		}
-		kind := ctorKind[ctor]
+		kind := kinds[0]
 		if prev, dup := usedKinds[kind]; dup {
-			r.Ob("W2", hname, "rpc "+spec.rpc+" kind", ctor.Pos(), false, true,
+			r.Ob("W2", hname, "rpc "+spec.rpc+" kind", hd.Pos(), false, true,
 				fmt.Sprintf("%s registers its monitors with kind %s, which is also the kind of %s: the two monitor methods are indistinguishable when notifying", spec.rpc, kind.Name(), prev))
 		} else {
 			usedKinds[kind] = spec.rpc
-			r.Ob("W2", hname, "rpc "+spec.rpc+" kind", ctor.Pos(), true, true, fmt.Sprintf("%s -> %s -> %s", spec.rpc, ctor.Name(), kind.Name()))
+			r.Ob("W2", hname, "rpc "+spec.rpc+" kind", hd.Pos(), true, true, fmt.Sprintf("%s -> %s", spec.rpc, kind.Name()))
 		}
 		send := kindSend[kind]
 		if send == nil {
@@ -390,7 +326,7 @@ func ruleW(p *Program, r *Reporter) {
 		}
 		s := sends[send]
 		sname := typesFuncName(send)
-		chain := fmt.Sprintf("%s -> %s -> %s -> %s -> %q", spec.rpc, ctor.Name(), kind.Name(), send.Name(), s.method)
+		chain := fmt.Sprintf("%s -> %s -> %s -> %q", spec.rpc, kind.Name(), send.Name(), s.method)
 		r.Ob(id, sname, "rpc "+spec.rpc+" method", s.pos, s.method == spec.method, true,
 			ifs(s.method == spec.method, chain, fmt.Sprintf("%s: monitors created by %s must be notified with %q, but are sent %q", chain, spec.rpc, spec.method, s.method)))
 		r.Ob(id, sname, "rpc "+spec.rpc+" arity", s.pos, s.arity == spec.arity, true,
@@ -440,7 +376,7 @@ func ruleW(p *Program, r *Reporter) {
 
 // ruleW4Standalone: synchronous delivery, registered as its own rule.
 func ruleW4Standalone(p *Program, r *Reporter) {
-	sends := serverSends(p)
+	sends := serverSendsSSA(p)
 	if len(sends) < 3 {
 		r.Anchor("W4", "server notification senders")
 		return
@@ -577,4 +513,326 @@ func ruleW4(p *Program, r *Reporter, sends map[*types.Func]*serverSend) {
 	r.Ob(id, "(*client.ovsdbClient).createRPC2Client", "SetBlocking(true) before Run", fd.Pos(), ok, true,
 		ifs(ok, "handlers run inside the read loop: notifications are applied in wire order and before the reply that follows them is delivered",
 			"rpc2 client is not put in blocking mode before Run: each notification is handled in its own goroutine, so updates can be applied out of order and after the Transact reply"))
+}
+
+// ---------------------------------------------------------------------------
+// SSA-based extraction (robust to helper extraction): who sends which
+// notification, which monitor kind reaches which sender, which kind a monitor
+// RPC handler creates.
+
+// sliceLiteralElems returns the static element types of an args slice built as a literal.
+func sliceLiteralElems(v ssa.Value) ([]string, bool) {
+	for {
+		if mi, ok := v.(*ssa.MakeInterface); ok {
+			v = mi.X
+			continue
+		}
+		if ci, ok := v.(*ssa.ChangeInterface); ok {
+			v = ci.X
+			continue
+		}
+		break
+	}
+	sl, ok := v.(*ssa.Slice)
+	if !ok {
+		return nil, false
+	}
+	al, ok := sl.X.(*ssa.Alloc)
+	if !ok {
+		return nil, false
+	}
+	arr, ok := deref(al.Type()).Underlying().(*types.Array)
+	if !ok {
+		return nil, false
+	}
+	elems := make([]string, arr.Len())
+	if refs := al.Referrers(); refs != nil {
+		for _, ref := range *refs {
+			ia, ok := ref.(*ssa.IndexAddr)
+			if !ok {
+				continue
+			}
+			k, isC := constInt(ia.Index)
+			if !isC || k < 0 || int(k) >= len(elems) {
+				continue
+			}
+			if ir := ia.Referrers(); ir != nil {
+				for _, r2 := range *ir {
+					if st, ok := r2.(*ssa.Store); ok && st.Addr == ia {
+						val := st.Val
+						if mi, ok := val.(*ssa.MakeInterface); ok {
+							val = mi.X
+						}
+						elems[k] = typeStr(val.Type())
+					}
+				}
+			}
+		}
+	}
+	return elems, true
+}
+
+type resolvedSend struct {
+	origin *ssa.Function // function in which the method constant appears
+	method string
+	args   ssa.Value
+	pos    token.Pos
+}
+
+// resolveSendArgs follows (method, args) of an rpc2 call through parameters up the static callers.
+func resolveSendArgs(p *Program, fn *ssa.Function, method, args ssa.Value, pos token.Pos, depth int) []resolvedSend {
+	if depth > 4 {
+		return nil
+	}
+	for {
+		if mi, ok := args.(*ssa.MakeInterface); ok {
+			args = mi.X
+			continue
+		}
+		break
+	}
+	if s, ok := stringConstOf(method); ok {
+		return []resolvedSend{{fn, s, args, pos}}
+	}
+	prm, ok := method.(*ssa.Parameter)
+	if !ok {
+		return nil
+	}
+	mi, ai := -1, -1
+	for i, q := range fn.Params {
+		if q == prm {
+			mi = i
+		}
+		if ssa.Value(q) == args {
+			ai = i
+		}
+	}
+	var out []resolvedSend
+	for _, s := range getCallIndex(p).sites[fn] {
+		cargs := s.instr.(ssa.CallInstruction).Common().Args
+		if mi < 0 || mi >= len(cargs) {
+			continue
+		}
+		a := args
+		if ai >= 0 && ai < len(cargs) {
+			a = cargs[ai]
+		}
+		out = append(out, resolveSendArgs(p, s.caller, cargs[mi], a, s.instr.Pos(), depth+1)...)
+	}
+	return out
+}
+
+func serverSendsSSA(p *Program) map[*types.Func]*serverSend {
+	out := map[*types.Func]*serverSend{}
+	for _, fn := range p.srcFuncs {
+		if pkgOf(fn) != "server" {
+			continue
+		}
+		for _, b := range fn.Blocks {
+			for _, ins := range b.Instrs {
+				ci, ok := ins.(ssa.CallInstruction)
+				if !ok {
+					continue
+				}
+				sc := ci.Common().StaticCallee()
+				if sc == nil || sc.Signature.Recv() == nil || !isRPC2(sc.Signature.Recv().Type(), "Client") || len(ci.Common().Args) < 3 {
+					continue
+				}
+				switch sc.Name() {
+				case "Call", "CallWithContext", "Notify", "Go":
+				default:
+					continue
+				}
+				margs := ci.Common().Args
+				mIdx := 1
+				if sc.Name() == "CallWithContext" {
+					mIdx = 2
+				}
+				if mIdx+1 >= len(margs) {
+					continue
+				}
+				_, isGo := ins.(*ssa.Go)
+				for _, rs := range resolveSendArgs(p, fn, margs[mIdx], margs[mIdx+1], ins.Pos(), 0) {
+					if pkgOf(rs.origin) != "server" || rs.origin.Object() == nil {
+						continue
+					}
+					fobj, _ := rs.origin.Object().(*types.Func)
+					if fobj == nil {
+						continue
+					}
+					s := &serverSend{fn: fobj, method: rs.method, pos: rs.pos, callSel: sc.Name(), arity: -1, usesGo: isGo}
+					if elems, ok := sliceLiteralElems(rs.args); ok {
+						s.arity = len(elems)
+						s.elems = elems
+					}
+					// any go statement on the way (in the origin or the helper) makes delivery asynchronous
+					for _, g := range []*ssa.Function{rs.origin, fn} {
+						for _, b2 := range g.Blocks {
+							for _, i2 := range b2.Instrs {
+								if _, ok := i2.(*ssa.Go); ok {
+									s.usesGo = true
+								}
+							}
+						}
+					}
+					out[fobj] = s
+				}
+			}
+		}
+	}
+	return out
+}
+
+// kindToSender: for each comparison monitor.kind == K in package server, the notification
+// sender reached on the equal edge.
+func kindToSender(p *Program, sends map[*types.Func]*serverSend) map[*types.Const]*types.Func {
+	kindFld := p.Field("server", "monitor", "kind")
+	out := map[*types.Const]*types.Func{}
+	if kindFld == nil {
+		return out
+	}
+	kindConst := func(v ssa.Value) *types.Const {
+		c, ok := v.(*ssa.Const)
+		if !ok || c.Value == nil {
+			return nil
+		}
+		sc := p.Pkgs["server"].Types.Scope()
+		for _, n := range sc.Names() {
+			if k, ok := sc.Lookup(n).(*types.Const); ok && types.Identical(k.Type(), c.Type()) && constantEqual(k, c) {
+				return k
+			}
+		}
+		return nil
+	}
+	reachesSender := func(g *ssa.Function) *types.Func {
+		for _, h := range p.Reach(g) {
+			if fo, ok := h.Object().(*types.Func); ok && sends[fo] != nil {
+				return fo
+			}
+		}
+		return nil
+	}
+	for _, fn := range p.srcFuncs {
+		if pkgOf(fn) != "server" {
+			continue
+		}
+		for _, b := range fn.Blocks {
+			iff, ok := b.Instrs[len(b.Instrs)-1].(*ssa.If)
+			if !ok {
+				continue
+			}
+			bo, ok := iff.Cond.(*ssa.BinOp)
+			if !ok || bo.Op != token.EQL {
+				continue
+			}
+			var k *types.Const
+			if loadOfField(bo.X, kindFld) {
+				k = kindConst(bo.Y)
+			} else if loadOfField(bo.Y, kindFld) {
+				k = kindConst(bo.X)
+			}
+			if k == nil {
+				continue
+			}
+			tgt := b.Succs[0]
+			for _, b2 := range fn.Blocks {
+				if b2 != tgt && !(tgt.Dominates(b2) && len(tgt.Preds) == 1) {
+					continue
+				}
+				// stay within the arm: stop at blocks also reachable from the other edge
+				if b2 != tgt && !tgt.Dominates(b2) {
+					continue
+				}
+				for _, ins := range b2.Instrs {
+					if c, ok := ins.(*ssa.Call); ok {
+						if g := c.Call.StaticCallee(); g != nil && pkgOf(g) == "server" {
+							if fo := reachesSender(g); fo != nil {
+								if _, dup := out[k]; !dup {
+									out[k] = fo
+								}
+							}
+						}
+					}
+				}
+			}
+		}
+	}
+	return out
+}
+
+func constantEqual(k *types.Const, c *ssa.Const) bool {
+	return k.Val() != nil && c.Value != nil && k.Val().ExactString() == c.Value.ExactString()
+}
+
+// handlerKinds: the monitor kind constants a handler can store into monitor.kind,
+// directly or through constructors / helpers it reaches.
+func handlerKinds(p *Program, h *ssa.Function) []*types.Const {
+	kindFld := p.Field("server", "monitor", "kind")
+	if kindFld == nil || h == nil {
+		return nil
+	}
+	region := map[*ssa.Function]bool{}
+	for _, g := range p.Reach(h) {
+		region[g] = true
+	}
+	sc := p.Pkgs["server"].Types.Scope()
+	constOf := func(c *ssa.Const) *types.Const {
+		for _, n := range sc.Names() {
+			if k, ok := sc.Lookup(n).(*types.Const); ok && types.Identical(k.Type(), c.Type()) && constantEqual(k, c) {
+				return k
+			}
+		}
+		return nil
+	}
+	seen := map[*types.Const]bool{}
+	var out []*types.Const
+	var resolve func(g *ssa.Function, v ssa.Value, depth int)
+	resolve = func(g *ssa.Function, v ssa.Value, depth int) {
+		if depth > 4 {
+			return
+		}
+		switch x := v.(type) {
+		case *ssa.Const:
+			if k := constOf(x); k != nil && !seen[k] {
+				seen[k] = true
+				out = append(out, k)
+			}
+		case *ssa.Parameter:
+			idx := -1
+			for i, q := range g.Params {
+				if q == x {
+					idx = i
+				}
+			}
+			for _, s := range getCallIndex(p).sites[g] {
+				if !region[s.caller] {
+					continue
+				}
+				args := s.instr.(ssa.CallInstruction).Common().Args
+				if idx >= 0 && idx < len(args) {
+					resolve(s.caller, args[idx], depth+1)
+				}
+			}
+		case *ssa.Phi:
+			for _, e := range x.Edges {
+				resolve(g, e, depth+1)
+			}
+		}
+	}
+	for g := range region {
+		for _, b := range g.Blocks {
+			for _, ins := range b.Instrs {
+				st, ok := ins.(*ssa.Store)
+				if !ok {
+					continue
+				}
+				fa, ok := st.Addr.(*ssa.FieldAddr)
+				if !ok || fieldOfAddr(fa) != kindFld {
+					continue
+				}
+				resolve(g, st.Val, 0)
+			}
+		}
+	}
+	return out
 }
